@@ -184,7 +184,7 @@ def check(facts):
             key = "%s %s is the distance test" % (impl, m)
             try:
                 ps = symex.SymEx(facts.body(fn)).run()
-                got = {(tuple((symex.show(g), str(v)) for g, v in p.guards), symex.show(p.ret)) for p in ps if not p.diverged}
+                got = {(tuple((g, str(v)) for g, v in symex.cguards(p)), symex.show(p.ret)) for p in ps if not p.diverged}
             except symex.Unsupported as e:
                 got = {("unsupported", str(e))}
             if got == w:
